@@ -12,6 +12,7 @@
 #    See the License for the specific language governing permissions and
 #    limitations under the License.
 
+import copy
 import numbers
 
 cimport cython
@@ -433,6 +434,19 @@ cdef class cyConstraintView(_cyExpression):
     def __init__(self, cyConstrainedQuadraticModel parent, object label):
         super().__init__(parent)
         self.constraint_ptr = parent.cppcqm.constraint_weak_ptr(parent.constraint_labels.index(label))
+
+    def __deepcopy__(self, memo):
+        # like the objective view, the copy is a view into a copy of the parent model
+        cdef cppConstraint[bias_type, index_type]* constraint = self.constraint()
+
+        cdef Py_ssize_t ci
+        for ci in range(self.parent.cppcqm.num_constraints()):
+            if self.parent.cppcqm.constraint_weak_ptr(ci).lock().get() == constraint:
+                label = self.parent.constraint_labels.at(ci)
+                new = memo[id(self)] = type(self)(copy.deepcopy(self.parent, memo), label)
+                return new
+
+        raise RuntimeError("this constraint is no longer valid")
 
     cdef cppConstraint[bias_type, index_type]* constraint(self) except NULL:
         if self.constraint_ptr.expired():
